@@ -19,6 +19,9 @@ import (
 type wv any
 type wtuple []wv
 
+// wword is a machine word as a vector of bit atoms (index 0 = least significant): "0", "1" or a name.
+type wword []string
+
 type wOutcome struct {
 	kind string // "", "return", "continue", "break"
 	err  bool   // a return with a non-nil error
@@ -31,6 +34,9 @@ type wInterp struct {
 	fail   string // why the interpretation could not be carried out
 	steps  int
 	hook   func(name string, c *ast.CallExpr) (wv, bool)
+	// for type switches: the dynamic type of the switched value and the value bound in the chosen clause
+	dynType  types.Type
+	dynValue wv
 }
 
 func (w *wInterp) push() { w.env = append(w.env, map[string]wv{}) }
@@ -140,6 +146,42 @@ func (w *wInterp) expr(e ast.Expr) wv {
 			eq := fmt.Sprint(x) == fmt.Sprint(y) && (x == nil) == (y == nil)
 			return eq == (t.Op == token.EQL)
 		}
+		if xw, isW := x.(wword); isW {
+			if k, isK := y.(int64); isK {
+				out := make(wword, len(xw))
+				for i := range out {
+					out[i] = "0"
+				}
+				switch t.Op {
+				case token.SHR:
+					for i := range out {
+						if j := int64(i) + k; k >= 0 && j < int64(len(xw)) {
+							out[i] = xw[j]
+						}
+					}
+					return out
+				case token.SHL:
+					for i := range out {
+						if j := int64(i) - k; k >= 0 && j >= 0 {
+							out[i] = xw[j]
+						}
+					}
+					return out
+				case token.AND:
+					for i := range out {
+						if i < 63 && k>>uint(i)&1 == 1 || i == 63 && k < 0 {
+							out[i] = xw[i]
+						}
+					}
+					return out
+				case token.OR, token.XOR:
+					if k == 0 {
+						return xw
+					}
+				}
+			}
+			return w.bad("word operation %s in %s", t.Op, cx(e))
+		}
 		a, ok1 := x.(int64)
 		b, ok2 := y.(int64)
 		if !ok1 || !ok2 {
@@ -216,7 +258,11 @@ func (w *wInterp) expr(e ast.Expr) wv {
 func (w *wInterp) call(c *ast.CallExpr) wv {
 	// conversions
 	if tv, ok := w.pkg.TypesInfo.Types[c.Fun]; ok && tv.IsType() && len(c.Args) == 1 {
-		return w.expr(c.Args[0])
+		v := w.expr(c.Args[0])
+		if ww, isW := v.(wword); isW {
+			return convertWord(ww, tv.Type)
+		}
+		return v
 	}
 	name := ""
 	switch f := c.Fun.(type) {
@@ -289,7 +335,7 @@ func (w *wInterp) assign(lhs ast.Expr, v wv, define bool) {
 	switch t := ast.Unparen(lhs).(type) {
 	case *ast.Ident:
 		if t.Name != "_" {
-			w.set(t.Name, v, define)
+			w.set(cx(t), v, define)
 		}
 	case *ast.IndexExpr:
 		s, ok := w.expr(t.X).([]wv)
@@ -346,11 +392,13 @@ func (w *wInterp) stmt(s ast.Stmt) wOutcome {
 				var v wv = "UNSET"
 				if b, ok := w.pkg.TypesInfo.Defs[n].Type().Underlying().(*types.Basic); ok && b.Info()&types.IsInteger != 0 {
 					v = int64(0)
+				} else if ok && b.Info()&types.IsBoolean != 0 {
+					v = false
 				}
 				if i < len(vs.Values) {
 					v = w.expr(vs.Values[i])
 				}
-				w.set(n.Name, v, true)
+				w.set(cx(n), v, true)
 			}
 		}
 	case *ast.AssignStmt:
@@ -514,6 +562,40 @@ func (w *wInterp) stmt(s ast.Stmt) wOutcome {
 			chosen = deflt
 		}
 		if chosen != nil {
+			o := w.stmts(chosen.Body)
+			if o.kind == "break" {
+				return wOutcome{}
+			}
+			return o
+		}
+	case *ast.TypeSwitchStmt:
+		// x := v.(type): the driver fixes the dynamic type (w.dynType) and the value bound in the clause (w.dynValue)
+		if w.dynType == nil {
+			w.bad("type switch without a fixed dynamic type")
+			return wOutcome{}
+		}
+		w.push()
+		defer w.pop()
+		var chosen, deflt *ast.CaseClause
+		for _, cl := range t.Body.List {
+			cc := cl.(*ast.CaseClause)
+			if cc.List == nil {
+				deflt = cc
+				continue
+			}
+			for _, e := range cc.List {
+				if tt := w.pkg.TypesInfo.TypeOf(e); tt != nil && types.Identical(tt, w.dynType) && chosen == nil {
+					chosen = cc
+				}
+			}
+		}
+		if chosen == nil {
+			chosen = deflt
+		}
+		if chosen != nil {
+			if as, ok := t.Assign.(*ast.AssignStmt); ok && len(as.Lhs) == 1 {
+				w.set(cx(as.Lhs[0]), w.dynValue, true)
+			}
 			o := w.stmts(chosen.Body)
 			if o.kind == "break" {
 				return wOutcome{}
@@ -802,7 +884,7 @@ func c05padding(p *load.Program, run *report.Run, pkg *packages.Package, fds map
 			}
 			for _, st := range r.Body.List {
 				if i, ok := st.(*ast.IfStmt); ok {
-					if be, ok := i.Cond.(*ast.BinaryExpr); ok && be.Op == token.NEQ {
+					if be, ok := i.Cond.(*ast.BinaryExpr); ok && (be.Op == token.NEQ || be.Op == token.EQL) {
 						if c, ok := be.X.(*ast.CallExpr); ok && cx(c.Fun) == "len" {
 							ifs = i
 						}
@@ -1014,4 +1096,28 @@ func c05segments(p *load.Program, run *report.Run) {
 		}
 	}
 	run.Floor("segment-accesses", 4)
+}
+
+// convertWord models an integer conversion on a word kept sign- or zero-extended to its full length: the
+// low bits of the target width are kept and extended according to the target's signedness.
+func convertWord(x wword, to types.Type) wword {
+	b, ok := to.Underlying().(*types.Basic)
+	if !ok || b.Info()&types.IsInteger == 0 {
+		return x
+	}
+	width := map[types.BasicKind]int{types.Int8: 8, types.Uint8: 8, types.Int16: 16, types.Uint16: 16, types.Int32: 32, types.Uint32: 32,
+		types.Int64: 64, types.Uint64: 64, types.Int: 64, types.Uint: 64, types.Uintptr: 64}[b.Kind()]
+	if width == 0 || width >= len(x) {
+		return x
+	}
+	out := make(wword, len(x))
+	copy(out, x[:width])
+	fill := "0"
+	if b.Info()&types.IsUnsigned == 0 {
+		fill = x[width-1]
+	}
+	for i := width; i < len(out); i++ {
+		out[i] = fill
+	}
+	return out
 }
